@@ -43,6 +43,8 @@ func StartWatchdog(c *Ctx, out string) {
 	go func() {
 		var lastSeq uint64
 		var since float64
+		idleTicks := 0
+		lastCPU := 0.0
 		for {
 			time.Sleep(200 * time.Millisecond)
 			cur := current.Load()
@@ -52,7 +54,25 @@ func StartWatchdog(c *Ctx, out string) {
 			now := cpuSeconds()
 			if cur.seq != lastSeq {
 				lastSeq, since = cur.seq, now
+				idleTicks, lastCPU = 0, now
 				continue
+			}
+			// blocked forever: the same case stays current for 450 watchdog ticks (ticks, not wall time: a
+			// suspended process makes no ticks) during which the whole process consumed less than one CPU second
+			// (the runtime's own background work — timers, sysmon, this goroutine — is a fraction of a percent of
+			// a core; a window of 450 ticks in which the whole process used less than one CPU second is idle)
+			idleTicks++
+			if idleTicks > 450 && now-lastCPU >= 1.0 {
+				idleTicks, lastCPU = 0, now
+			}
+			if idleTicks > 450 {
+				cs := cur.what()
+				raw, _ := json.Marshal(cs)
+				r := &WorkerResult{Counters: map[string]int64{}, Notes: map[string]int64{}, Extra: map[string]interface{}{}}
+				r.Violations = []*Violation{{Property: c.Property, Signature: "noreplay/blocked", What: "one case made no progress and consumed no CPU for 450 consecutive watchdog ticks (>= 90 s of process run time): the call blocks forever", Case: raw, Count: 1}}
+				b, _ := json.Marshal(r)
+				os.WriteFile(out, b, 0o644)
+				os.Exit(0)
 			}
 			if now-since > HangCPUBudget {
 				cs := cur.what()
